@@ -9,8 +9,8 @@
     votes).  All statements hold for ALL DB states (reachable or not), all arguments, all
     histories, except where a hypothesis says otherwise. *)
 From stdpp Require Import gmap list numbers.
-From Drummer.Model Require Import DB DBRun Service ServiceRun.
-From Drummer.Proofs Require Import DBProofs ServiceProofs.
+From Drummer.Model Require Import DB DBRun Service ServiceRun ServiceFault.
+From Drummer.Proofs Require Import DBProofs ServiceProofs ServiceFaultProofs.
 Local Open Scope N_scope.
 
 (** ** The state behind the API is exactly the replicated log applied to the DB:
@@ -164,6 +164,43 @@ Theorem C17_no_failstop_history : forall P d (cs : list call),
 Proof. exact config_history_alive. Qed.
 Print Assumptions C17_no_failstop_history.
 
+(** ** Calls that FAIL in the middle of a sequence (timeout of the proposal inside the call, client
+       context cancelled / expired; theories/ServiceFault.v).  A call answered with an error because it
+       was cut short contributes to the replicated log either ALL the commands of the call or NONE
+       ([failed_cmds]); the state later calls see is the log applied to the DB, as always.  A failed
+       query and a failed refused call leave nothing behind whichever way they are resolved. *)
+Theorem C17_failed_call_all_or_nothing : forall P s c applied,
+  resolve_step P s c applied = run_from P s (failed_cmds c applied) /\
+  (resolve_step P s c applied = s \/ resolve_step P s c applied = (svc_step P s c).1) /\
+  (is_query c = true \/ call_cmds c = [] -> resolve_step P s c applied = s).
+Proof.
+  intros P s c a. split; [apply resolve_step_log|]. split; [apply resolve_step_cases|].
+  intros [H|H]; [apply failed_query_invisible|apply failed_refused_invisible]; exact H.
+Qed.
+Print Assumptions C17_failed_call_all_or_nothing.
+
+(** histories of calls, each completed or failed (resolved either way): the state is the log, and
+    configuration calls - completed, failed-and-lost, failed-but-applied, any arguments - keep a
+    non-failed DB alive and non-failed *)
+Theorem C17_failed_history_is_log : forall P xs s,
+  foldl (fcall_step P) s xs = run_from P s (concat (fcall_cmds <$> xs)).
+Proof. intros P xs s. apply fcall_run_log. Qed.
+Print Assumptions C17_failed_history_is_log.
+
+Theorem C17_no_failstop_with_failures : forall P xs d,
+  d_failed d = false -> Forall (fun x => is_config (fcall_call x) = true) xs ->
+  exists d', foldl (fcall_step P) (Live d) xs = Live d' /\ d_failed d' = false.
+Proof. intros P xs d. apply failed_history_alive. Qed.
+Print Assumptions C17_no_failstop_with_failures.
+
+(** the trace checker the correspondence evaluates on observed call sequences with failed calls keeps
+    the SET of states the history allows; it accepts a trace iff SOME resolution (one "applied or not"
+    per failed call, fixed once and for all) explains every later observation *)
+Theorem C17_failed_trace_checker_exact : forall P its,
+  all_true (check_ftrace P its) = true <-> exists res, check_resolved P (Live db_init) its res = true.
+Proof. exact nd_exact. Qed.
+Print Assumptions C17_failed_trace_checker_exact.
+
 (** ** Non-vacuity (closed by computation) *)
 Definition P0 : params := mkParams 60 5 24.
 Definition q0 : request := mkReq RCreate 1 [11; 12] 0 [11; 12] [3; 4] 11 3 false false 7.
@@ -227,3 +264,23 @@ Proof. vm_compute. repeat split; reflexivity. Qed.
 Example C17_handler_panic_unreachable_state :
   (svc_call P0 (set_kv db_init {[key_bootstrapped := mkKVR key_bootstrapped 1 7 0 0 false]}) SetBootstrapped).2 = RHandlerPanic.
 Proof. vm_compute. reflexivity. Qed.
+
+(* failed calls: (1) a SetBootstrapped that failed, the flag read back as false, a shard accepted: explained (not applied);
+   (2) the same failure, flag read back false, but the next SubmitChange answered BOOTSTRAPPED (a front-end that
+   remembers the attempt): NO resolution explains it - the checker flags the SubmitChange;
+   (3) the failure followed by BOOTSTRAPPED and a flag read back true: explained (applied);
+   (4) a failed report answered with an error: its requests are still pending (not applied) or gone (applied), but a
+   report that was answered and is not in the collection afterwards is never explained *)
+Example C17_failed_calls_nonvacuous :
+  let sc := SubmitChange 0 (mkSD 3 [5] 7) in
+  check_ftrace P0 [FFailed SetBootstrapped; FItem (SBoot [10; 0]); FItem (SCall sc [0; 0]); FItem (SCall GetShards [4; 1; 3; 7; 1; 5])]
+    = [true; true; true; true] /\
+  check_ftrace P0 [FFailed SetBootstrapped; FItem (SBoot [10; 0]); FItem (SCall sc [0; 2])] = [true; true; false] /\
+  check_ftrace P0 [FFailed SetBootstrapped; FItem (SCall sc [0; 2]); FItem (SBoot [10; 1])] = [true; true; true] /\
+  check_ftrace P0 [FFailed SetBootstrapped; FItem (SCall sc [0; 2]); FItem (SBoot [10; 0])] = [true; true; false] /\
+  check_ftrace P0 [FItem (SCmd (CRequests [q0]) (Some 1)); FFailed (Report r3); FItem (SCall (Report r3) (3 :: 1 :: dump_req q0))]
+    = [true; true; true] /\
+  check_ftrace P0 [FItem (SCmd (CRequests [q0]) (Some 1)); FFailed (Report r3); FItem (SCall (Report r3) [3; 0])]
+    = [true; true; true] /\
+  check_ftrace P0 [FItem (SCall (Report r3) [3; 0]); FItem (SCall GetNodeHostCollection [5; 0; 0])] = [true; false].
+Proof. vm_compute. repeat split; reflexivity. Qed.
